@@ -119,6 +119,9 @@ package dagcbor
 //@ func Encode(n, w) (err)
 //@   requires n != nil && w != nil
 //@   before Encode assert[C02] carg0.AllowLinks && carg0.MapSortMode == codec.MapSortMode_RFC7049 && carg1 == n && carg2 == w
+//   (there is no other way out: every encoding is produced by EncodeOptions.Encode)
+//@   after Encode let viaoptions = true
+//@   ensures[C02] err == nil ==> defined(viaoptions)
 
 //@ func marshal(n, tk, sink, options) (err)
 //@   requires n != nil && tk != nil && sink != nil && !tk.Tagged
@@ -252,6 +255,8 @@ package dagcbor
 //@ func Decode(na, r) (err)
 //@   requires na != nil && r != nil && r.teesink == nil
 //@   before Decode assert[C03,C06] carg0.AllowLinks && !carg0.RelaxedDecode && !carg0.DontParseBeyondEnd && carg0.AllocationBudget == 0 && carg0.MaxDepth == 0 && carg1 == na && carg2 == r
+//@   after Decode let viaoptions = true
+//@   ensures[C03,C06] err == nil ==> defined(viaoptions)
 
 //@ func (DecodeOptions).Decode(na, r) (err)
 //@   requires na != nil && r != nil && r.teesink == nil && cfg.AllocationBudget <= 4611686018427387904 && 0 <= cfg.AllocationBudget
